@@ -249,8 +249,14 @@ class Env:
         with open(self.path, "w", encoding="utf-8", newline="") as fh:
             fh.write(text)
         self.gzpath = self.path + ".gz"
-        with gzip.open(self.gzpath, "wt", encoding="utf-8", newline="") as fh:
-            fh.write(text)
+        # the gzip form is a file of TWO gzip members (what bgzip, `pigz -i` or `cat a.gz b.gz` produce): readers see the
+        # concatenation
+        raw = text.encode("utf-8")
+        cut = raw.find(b"\n", len(raw) // 2) + 1 or len(raw)
+        with open(self.gzpath, "wb") as out:
+            for part in (raw[:cut], raw[cut:]):
+                if part:
+                    out.write(gzip.compress(part))
         self.srcdb = gffutils.create_db(self.path, os.path.join(ctx.scratch, "c13_%s_src.db" % tag), force=True,
                                         disable_infer_genes=True, disable_infer_transcripts=True,
                                         merge_strategy="error", verbose=False)
